@@ -97,9 +97,11 @@ STARTS = {'nonauth': [],
 
 
 def make_case(start: str, program: list[str], tls: bool = False,
-              chunk_seed=None) -> dict:
-    cfg = {'backend': 'dict', 'users': [USER], 'tls': tls,
+              chunk_seed=None, backend: str = 'dict') -> dict:
+    cfg = {'backend': backend, 'users': [USER], 'tls': tls,
            'bad_command_limit': 0, 'buggify': []}
+    if backend == 'maildir':
+        cfg['layout'] = '++' if (chunk_seed or 0) % 2 else 'fs'
     steps = [{'letter': name, 'pre': True} for name in STARTS[start]]
     steps += [{'letter': name} for name in program]
     case = {'config': cfg, 'steps': steps, 'start': start}
@@ -351,8 +353,9 @@ def run_program(case: dict, trace: bool = False) -> dict:
                     break
                 model.state = 'logout'
                 break
-            elif name == 'create_new' and cond == 'OK':
-                model.boxes.add('New')
+            elif name in ('create_new', 'create_existing') and cond == 'OK':
+                # ("existing" may have been deleted by the other session)
+                model.boxes.add(actions[0]['mailbox'])
             # the revealed state must be the model's
             auth, sel, toks = reveal()
             want_auth = model.state in ('auth', 'selected')
@@ -390,17 +393,19 @@ def run_program(case: dict, trace: bool = False) -> dict:
 class C05(Profile):
     id = 'C05'
     level = 'exploration'
-    quick_budget_s = 30.0
-    thorough_budget_s = 300.0
+    quick_budget_s = 50.0
+    thorough_budget_s = 420.0
     batch = 40
     rule = ('alphabet of %d letters (every built-in command once with valid '
             'arguments, the state-relevant ones also with a missing mailbox '
             '/ bad password / cancel / read-only target). Quick: ALL '
-            'programs of length <= 2 from each of 4 start states (not '
-            'authenticated, authenticated, selected, examined), TLS '
-            'required and not (exhaustive); thorough adds ALL programs of '
-            'length 3 from the not-authenticated state; beyond that seeded '
-            'random programs of length 4-12 with random input chunking. '
+            'programs of length <= 2 from each of 5 start states (not '
+            'authenticated, authenticated, selected INBOX / Other, '
+            'examined), and with TLS required from the first two '
+            '(exhaustive; thorough: TLS from all five, plus ALL programs of '
+            'length 3 from the not-authenticated state); beyond that, to '
+            'the end of the budget, seeded random programs of length 4-12 '
+            'with random input chunking, a quarter of them on maildir. '
             'After every letter three effect-free probes (LIST "" "", CHECK, '
             'UID FETCH 1:*) reveal the real state and a refused letter must '
             'leave state and all mailbox dumps unchanged. Interference: a '
@@ -421,6 +426,11 @@ class C05(Profile):
     def enumerate(self, tier):
         for tls in (False, True):
             for start in STARTS:
+                if tls and tier == 'quick' and start not in ('nonauth',
+                                                             'auth'):
+                    # the TLS requirement gates credentials; quick keeps
+                    # the selected start states for the plain listener
+                    continue
                 for name in NAMES:
                     yield make_case(start, [name], tls)
                 for a, b in itertools.product(NAMES, NAMES):
@@ -449,8 +459,11 @@ class C05(Profile):
             for _ in range(rng.randint(1, 3)):
                 prog.insert(rng.randrange(len(prog) + 1),
                             rng.choice(list(EXT)))
+        from .common import backends
         return make_case(start, prog, rng.random() < 0.3,
-                         rng.getrandbits(32))
+                         rng.getrandbits(32),
+                         rng.choice(backends(('dict', 'dict', 'dict',
+                                              'maildir'))))
 
     def run(self, case, trace=False):
         return run_program(case, trace)
